@@ -66,7 +66,7 @@ func (g *GenCfg) genVD(t *rapid.T, depth int) *VD {
 	if depth >= g.MaxDepth {
 		w = map[string]int{}
 		for k, v := range g.ValW {
-			if k != "arr" && k != "map" && k != "cmap" {
+			if k != "arr" && k != "map" && k != "cmap" && k != "barr" {
 				w[k] = v
 			}
 		}
@@ -91,6 +91,8 @@ func (g *GenCfg) genVD(t *rapid.T, depth int) *VD {
 			in = &VD{K: "u", N: 1}
 		}
 		return &VD{K: "some", W: rapid.IntRange(1, 3).Draw(t, "sw"), E: in}
+	case "barr":
+		return &VD{K: "barr", N: rapid.Uint64Range(0, 999).Draw(t, "bn"), L: rapid.IntRange(0, 24).Draw(t, "bl")}
 	case "arr", "map", "cmap":
 		l := rapid.IntRange(0, g.MaxElems).Draw(t, "cl")
 		var e *VD
@@ -136,7 +138,7 @@ func (g *GenCfg) genOp(t *rapid.T) Op {
 		op.N = rapid.SampledFrom([]int{1, 2, 3, 8}).Draw(t, "workers")
 	}
 	switch k {
-	case "grow", "mgrow", "ins", "set", "rem", "get", "remN", "mset", "mget", "mhas", "mrem", "msetN", "mremN",
+	case "grow", "mgrow", "reset", "mreset", "ins", "set", "rem", "get", "remN", "mset", "mget", "mhas", "mrem", "msetN", "mremN",
 		"badget", "badset", "badins", "badrem", "mbadget", "mbadrem", "mbadhas", "styp", "reattach", "drop":
 		op.P = rapid.Uint64Range(0, 1<<20).Draw(t, "p")
 	}
